@@ -9,6 +9,7 @@ oracle:  random histories (modifications x calculations incl. failing ones, DC, 
          runpp / rundcpp / runpp(init='results'); compared with the same calculation on a fresh copy of the tables.
 """
 import copy
+import os
 import json
 import math
 
@@ -278,6 +279,10 @@ def run(ctx):
         d = compare(net, fresh, DC_COLS if final == "rundcpp" else COLS, 1e-5 if final in ("init_results", "runpp_recycled") else 1e-6)
         if d:
             ctx.failure(f"differs:{final}", f"{final} after history {case['history']}: {d}", case)
+            if os.environ.get("C09_DUMP"):
+                import pickle
+                with open(os.path.join(os.environ["C09_DUMP"], f"c09_{k}.pkl"), "wb") as fh:
+                    pickle.dump({"net": net, "fresh": fresh, "twin": twin, "case": case}, fh)
         ctx.sample({"history": case["history"], "final": final}, cap=5)
     # directed histories for init='results': an island that was unsupplied in the previous calculation is re-supplied; branches
     # with open switches on both sides of the old island boundary (previous results partly NaN)
